@@ -235,6 +235,24 @@ def check(run):
             if c in A.colnames and not np.array_equal(np.asarray(A[c]), np.asarray(B[c])):
                 run.violation('power-request-history-exact-column', dict(column=c, first_request=np.asarray(A[c]).ravel()[:8], after_another_binning=np.asarray(B[c]).ravel()[:8], **desc))
                 break
+    # a mesh with more than 2^24 modes in a single bin: N_mode stays the exact count n^3 - 1 for one thread and for many
+    nmesh, box = 288, 288.0
+    pos, idx = lattice(rng, 2000, 16, box, clustered=False)
+    kN = np.pi * nmesh / box
+    tabs = {}
+    for ntc in (1, 16):
+        conf = dict(nmesh=nmesh, paste='CIC', compensated=False, interlaced=False, kw=dict(kbins=np.array([0.5 * 2 * np.pi / box, 2.0 * kN]), mubins=1, poles=[0]), nthread=ntc, dtype=np.float32)
+        run.ev()
+        tabs[ntc] = safe_power(ps, pos, box, conf)
+    desc = dict(nmesh=nmesh, box=box, N=2000, paste='CIC', family='one (k, mu) bin holding every mode but k=0')
+    # (only the exact columns: float32 sums over 2.4e7 modes in one bin carry percent-level accumulation error that depends on how
+    # many partial sums there are -- rounding, not a broken symmetry)
+    if not compare_tables(run, tabs[1], tabs[16], dict(desc, other_nthread=16), 'nthread', floats=False):
+        run.nt(('big-bin', nmesh))
+        nm = int(np.asarray(tabs[1]['N_mode']).sum())
+        if nm != nmesh**3 - 1:
+            run.violation('power-nthread-exact-column', dict(column='N_mode', got=nm, expected=nmesh**3 - 1, **desc))
+    del tabs
     # particle counts just past internal batch / threshold sizes (2^16, 2^20), not multiples of them, for both mass-assignment
     # schemes with interlacing and weights: permutation and thread-count invariance
     sizes = [(2**20 + 300001, 'CIC'), (2**16 + 1, 'CIC'), (2**20 + 300001, 'TSC')] if run.quick else [(2**20 + 300001, 'CIC'), (2**16 + 1, 'CIC'), (2**20 + 300001, 'TSC'), (2**21 + 17, 'CIC'), (3 * 2**20 - 1, 'TSC'), (2**20, 'CIC'), (2**20 + 1, 'CIC')]
